@@ -592,6 +592,15 @@ func (p *Prog) e5Func(r *e5Result, fn *ssa.Function) *e5Ctx {
 							nw.errs[ph] = known
 						} else {
 							delete(nw.errs, ph)
+							// `err = p.SendMsg(m)` merged into a loop variable that is tested
+							// later (`for err == nil {…}`): the pending outcome of the consuming
+							// call is decided by the test of the merge
+							for o, s := range nw.o {
+								if s.pend != nil && s.pend == e {
+									s.pend = ph
+									nw.o[o] = s
+								}
+							}
 						}
 					case isBoolType(ph.Type()):
 						if k, ok := e.(*ssa.Const); ok && k.Value != nil && k.Value.Kind() == constant.Bool {
